@@ -1450,6 +1450,18 @@ class Extractor:
             sc.consts = dict(saved); b = self.block(sc, s.orelse, SKIP, in_loop)
             sc.consts = {n: v for n, v in sc.consts.items() if ca.get(n, object()) == v}
             return seqn(("choice", a, b), self.block(sc, rest, k, in_loop))
+        if isinstance(s, ast.Try):
+            # the protected statements are part of the statement stream (a `return` inside them ends the path); a handler
+            # runs instead of them (approximation: from the state at the entry of the try)
+            saved = dict(sc.consts)
+            main = self.block(sc, list(s.body) + list(s.orelse) + list(s.finalbody) + list(rest), k, in_loop)
+            after = dict(sc.consts)
+            for hd in s.handlers:
+                sc.consts = dict(saved)
+                alt = self.block(sc, list(hd.body) + list(s.finalbody) + list(rest), k, in_loop)
+                main = main if alt == SKIP and False else ("choice", main, alt)
+            sc.consts = {n: v for n, v in after.items() if n in saved and saved[n] == v}
+            return main
         node = self.stmt(sc, s)
         return seqn(node, self.block(sc, rest, k, in_loop))
 
